@@ -8,6 +8,7 @@ package main
 // the streams for a failing input and reports `no-failing-input-found` when there is none.
 
 import (
+	"os"
 	"bytes"
 	"crypto/sha256"
 	"fmt"
@@ -34,7 +35,7 @@ var (
 	servicePath = []string{"service:Service.HandleMessage", "service:Service.handleConnection", "orgvarlinkservice:Service.orgvarlinkserviceDispatch", "service:Service.getInfo", "service:Service.getInterfaceDescription", "orgvarlinkservice:Call.replyGetInfo", "orgvarlinkservice:Call.replyGetInterfaceDescription", "call:Call.GetParameters"}
 	clientPath = []string{"connection:Connection.Send", "connection:Connection.Call", "connection:Error.DispatchError", "connection:Error.Error", "connection:type Error", "connection:const More,Oneway,Continues,Upgrade", "orgvarlinkservice:type InterfaceNotFound", "orgvarlinkservice:type MethodNotFound", "orgvarlinkservice:type MethodNotImplemented", "orgvarlinkservice:type InvalidParameter"}
 	readerPath = []string{"conn:Conn.Read", "conn:Conn.ReadBytes", "conn:Conn.Write", "conn:NewConn", "conn:type Conn"}
-	idlAll = []string{"idl:New", "idl:isBlank", "idl:parser.advance", "idl:parser.advanceOnLine", "idl:parser.backup", "idl:parser.next", "idl:parser.readAlias", "idl:parser.readError", "idl:parser.readFieldName", "idl:parser.readIDL", "idl:parser.readInterfaceName", "idl:parser.readKeyword", "idl:parser.readMethod", "idl:parser.readStructType", "idl:parser.readType", "idl:parser.readTypeName", "idl:type parser", "idl:type Type", "idl:type TypeField", "idl:type Alias", "idl:type Method", "idl:type Error", "idl:type IDL", "idl:const TypeBool,TypeInt,TypeFloat,TypeString,TypeObject,TypeArray,TypeMaybe,TypeMap,TypeStruct,TypeEnum,TypeAlias"}
+	idlAll = []string{"idl:New", "idl:isBlank", "idl:parser.advance", "idl:parser.advanceOnLine", "idl:parser.backup", "idl:parser.next", "idl:parser.readAlias", "idl:parser.readError", "idl:parser.readFieldName", "idl:parser.readIDL", "idl:parser.readInterfaceName", "idl:parser.readKeyword", "idl:parser.readMethod", "idl:parser.readStructType", "idl:parser.readType", "idl:parser.readTypeName", "idl:type parser", "idl:type Type", "idl:type TypeField", "idl:type TypeKind", "idl:type Alias", "idl:type Method", "idl:type Error", "idl:type IDL", "idl:const TypeBool,TypeInt,TypeFloat,TypeString,TypeObject,TypeArray,TypeMaybe,TypeMap,TypeStruct,TypeEnum,TypeAlias"}
 	genAll = []string{"gen:writeType", "gen:writeDocString", "gen:generateTemplate", "gen:resolvesToObject"}
 	lifecycleAll = []string{"service:Service.Bind", "service:Service.Listen", "service:Service.DoListen", "service:Service.Shutdown", "service:Service.teardown", "service:Service.isRunning", "service:Service.setListener", "service:Service.GetListener", "service:Service.refreshTimeout", "service:Service.handleConnection", "service:Service.RegisterInterface", "service:type Service"}
 )
@@ -54,28 +55,29 @@ func cat(ls ...[]string) []string {
 }
 
 var modelledBy = map[string][]string{
-	"C01": cat(replyPath, servicePath),
+	"C01": cat(replyPath, servicePath, []string{"call:Call.IsOneway", "call:Call.WantsMore", "call:Call.WantsUpgrade"}),
 	"C02": cat(replyPath, readerPath, []string{"connection:Connection.Send"}),
-	"C03": cat(clientPath, replyPath, []string{"call:Call.GetParameters", "bridge:type PipeCon", "bridge:PipeCon.Read", "bridge:PipeCon.Write", "newbridge:NewBridgeWithStderr"}),
-	"C04": cat(servicePath, []string{"service:type Service"}),
+	"C03": cat(clientPath, replyPath, []string{"call:Call.GetParameters", "bridge:type PipeCon", "bridge:PipeCon.Read", "bridge:PipeCon.Write", "newbridge:NewBridgeWithStderr", "bridge:NewBridge", "bridge:PipeCon.Close", "bridge:PipeCon.LocalAddr", "bridge:PipeCon.RemoteAddr", "bridge:PipeCon.SetDeadline", "bridge:var _", "connection:type Connection", "connection:Connection.Close"}),
+	"C04": cat(servicePath, []string{"service:type Service", "service:type dispatcher"}),
 	"C05": idlAll, "C06": idlAll, "C09": idlAll,
-	"C07": genAll,
-	"C08": cat(genAll, clientPath, replyPath),
+	"C07": cat(genAll, []string{"gen:generateFile", "gen:main"}),
+	"C08": cat(genAll, clientPath, replyPath, []string{"call:Call.IsOneway", "call:Call.WantsMore", "call:Call.WantsUpgrade", "call:Call.GetParameters"}),
 	"C10": cat(servicePath, []string{"call:Call.sendMessage", "conn:Conn.ReadBytes"}),
-	"C11": cat(clientPath, []string{"conn:Conn.ReadBytes", "conn:Conn.Write"}),
-	"C12": cat(replyPath, clientPath),
+	"C11": cat(clientPath, []string{"conn:Conn.ReadBytes", "conn:Conn.Write", "connection:type Connection", "connection:Connection.Close", "connection:type ReadWriterContext"}),
+	"C12": cat(replyPath, clientPath, []string{"orgvarlinkservice:InterfaceNotFound.Error", "orgvarlinkservice:InvalidParameter.Error", "orgvarlinkservice:MethodNotFound.Error", "orgvarlinkservice:MethodNotImplemented.Error"}),
 	"C13": {"service:Service.RegisterInterface", "service:NewService", "service:Service.getInfo",
 		"service:Service.getInterfaceDescription", "service:type Service",
 		"orgvarlinkservice:Call.replyGetInfo", "orgvarlinkservice:Call.replyGetInterfaceDescription",
 		"orgvarlinkservice:Service.orgvarlinkserviceDispatch",
 		"orgvarlinkservice:orgvarlinkserviceInterface.VarlinkGetDescription",
 		"connection:Connection.GetInfo", "connection:Connection.GetInterfaceDescription",
-		"resolver:Resolver.GetInfo", "resolver:Resolver.Resolve"},
-	"C14": lifecycleAll, "C15": lifecycleAll,
+		"resolver:Resolver.GetInfo", "resolver:Resolver.Resolve", "resolver:NewResolver", "resolver:Resolver.Close", "resolver:const ResolverAddress", "resolver:type Resolver",
+		"orgvarlinkservice:orgvarlinkserviceInterface.VarlinkDispatch", "orgvarlinkservice:orgvarlinkserviceInterface.VarlinkGetName", "orgvarlinkservice:orgvarlinkserviceNew", "orgvarlinkservice:type orgvarlinkserviceInterface"},
+	"C14": lifecycleAll, "C15": cat(lifecycleAll, []string{"service:ServiceTimeoutError.Error", "service:type ServiceTimeoutError"}),
 	"C16": cat(lifecycleAll, readerPath, []string{"service:Service.HandleMessage", "service:Service.getInfo", "service:Service.getInterfaceDescription"}),
 	"C17": cat(readerPath, []string{"conn:var aLongTimeAgo", "bridge:PipeCon.SetReadDeadline", "bridge:PipeCon.SetWriteDeadline", "service:Service.handleConnection",
-		"connection:Connection.Send", "connection:Connection.Call", "connection:Connection.Upgrade"}),
-	"C18": cat(readerPath, []string{"connection:Connection.Upgrade", "call:type Call"}),
+		"connection:Connection.Send", "connection:Connection.Call", "connection:Connection.Upgrade", "conn:Conn.Close", "conn:Conn.NetConn", "conn:type ioret", "conn:type rret", "bridge:PipeCon.Close", "bridge:type PipeCon", "newbridge:NewBridgeWithStderr"}),
+	"C18": cat(readerPath, []string{"connection:Connection.Upgrade", "call:type Call", "connection:type ReadWriterContext", "connection:type GetNetConn", "conn:Conn.NetConn", "connection:type Connection"}),
 	"C19": {"service:Service.parseAddress", "service:Service.Bind", "service:Service.setListener", "service:Service.teardown",
 		"connection:NewConnection", "listen_1.11:listen"},
 	"C20": {"socketactivation:activationListener", "service:Service.setListener"},
@@ -171,6 +173,42 @@ func genFingerprints(repo string) string {
 		}
 		b.WriteString("]\n\n")
 	}
+	// every declaration of the fingerprinted files, assigned to a property or not: a NEW declaration (say a
+	// MarshalJSON method, an init function, a package variable) can change behaviour without touching the
+	// text of any existing declaration, so the set of declaration names is pinned as well
+	assigned := map[string]bool{}
+	for _, names := range modelledBy {
+		for _, n := range names {
+			assigned[n] = true
+		}
+	}
+	var allNames, unassigned []string
+	for _, x := range all {
+		allNames = append(allNames, x.name)
+		if !assigned[x.name] {
+			unassigned = append(unassigned, x.name)
+		}
+	}
+	// …and the set of Go source files of the modelled packages (a new file can carry an init function)
+	for _, dir := range []string{"varlink", "varlink/idl", "varlink/internal/ctxio", "cmd/varlink-go-interface-generator"} {
+		entries, _ := os.ReadDir(filepath.Join(repo, dir))
+		for _, e := range entries {
+			if strings.HasSuffix(e.Name(), ".go") && !strings.HasSuffix(e.Name(), "_test.go") {
+				allNames = append(allNames, "file:"+dir+"/"+e.Name())
+			}
+		}
+	}
+	sort.Strings(allNames)
+	sort.Strings(unassigned)
+	fmt.Fprintf(&b, "/-- fingerprint of the SET of declaration names (functions, methods, types, consts, vars) of the fingerprinted files -/\ndef declarationSet : Nat := 0x%s\n\n", fmt.Sprintf("%x", sha256.Sum256([]byte(strings.Join(allNames, "\n"))))[:32])
+	b.WriteString("/-- declarations of those files that no property's model covers (informational) -/\ndef unassigned : List String := [")
+	for i, n := range unassigned {
+		if i > 0 {
+			b.WriteString(", ")
+		}
+		b.WriteString(leanStr(n))
+	}
+	b.WriteString("]\n\n")
 	b.WriteString("end Varlink.Extracted\n")
 	return b.String()
 }
